@@ -72,13 +72,17 @@ def gen_case(rng, tier, i):
                       "EventBasedTimestampWeightedTally+sub"])
     entry = rng.choice(["register", "notify"]) if cls.startswith("EventBased") else "register"
     klass = rng.choice(["equal", "int", "mixed", "uniform"])
-    tkind = rng.choice(["int", "float", "mixedtypes"])
+    tkind = rng.choice(["int", "float", "mixedtypes", "bigint"])
+    if tkind == "bigint" and entry == "notify":
+        tkind = "int"       # the data-event entry point converts time stamps to float by design; exact huge ints only via register()
     ops = []
     t = rng.choice([0, 0, 5, 100]) if tkind != "float" else rng.choice([0.0, 2.5, 1000.0])
+    if tkind == "bigint":
+        t = rng.choice([2 ** 53, 17 * 10 ** 17, 2 ** 60 + 1])      # e.g. nanosecond epoch clocks: exact ints beyond 2**53
     for rep in range(rng.choice([1, 1, 2])):
         n = rng.choice([0, 1, 2, 3, 6, 12, 40])
         for _ in range(n):
-            step = rng.choice([0, 0, 1, 2, 0.5, rng.uniform(0, 5)]) if tkind != "int" else rng.choice([0, 0, 1, 1, 2, 7])
+            step = rng.choice([0, 0, 1, 2, 0.5, rng.uniform(0, 5)]) if tkind not in ("int", "bigint") else rng.choice([0, 0, 1, 1, 2, 7])
             t = t + step
             r = rng.random()
             if r < 0.06:
@@ -89,16 +93,16 @@ def gen_case(rng, tier, i):
                 ops.append(["bad", rng.choice(["nant", "nanv", "strt"])])
             ops.append(["obs", t, _value(rng, klass)])
         if rng.random() < 0.85:
-            t = t + rng.choice([0, 0, 1, 3.5, 10])
+            t = t + (rng.choice([0, 0, 1, 3.5, 10]) if tkind != "bigint" else rng.choice([0, 1, 3, 10]))
             ops.append(["end", t])
             for _ in range(rng.randint(0, 3)):
-                t2 = t + rng.choice([0, 1, 2.5])
+                t2 = t + (rng.choice([0, 1, 2.5]) if tkind != "bigint" else rng.choice([0, 1, 2]))
                 ops.append(["after", t2, _value(rng, klass)])
                 if rng.random() < 0.3:
                     ops.append(["earlier", t - 1, _value(rng, klass)])
         if rep == 0:
             ops.append(["init"])
-            t = rng.choice([t, 0, t + 3])
+            t = rng.choice([t, 0, t + 3]) if tkind != "bigint" else rng.choice([t, t + 3])
     return {"fam": "T", "cls": cls, "entry": entry, "ops": ops}
 
 
